@@ -22,7 +22,7 @@ func TestZZC38(t *testing.T) {
 		{"no-index", "a -> b\n", "a -> b", "a -> b\n"},
 		{"duplicate attribute", "x: {style.opacity: 0.4; style.opacity: 0.5}\n", "x.style.opacity", "x\n"},
 		{"label.near, not near", "x: {near: top-center; label.near: outside-top-left}\n", "x.label.near", "x: {near: top-center}\n"},
-		{"near, not label.near (flat)", "x.near: top-center\nx.label.near: outside-top-left\n", "x.near", "x\nx.label.near: outside-top-left\n"},
+		{"near, not label.near (flat)", "x.near: top-center\nx.label.near: outside-top-left\n", "x.near", "x.label.near: outside-top-left\n"},
 		{"one arrowhead", "a -> b: {target-arrowhead.shape: arrow; source-arrowhead: {shape: diamond}}\n", "(a -> b)[0].source-arrowhead.shape", "a -> b: {target-arrowhead.shape: arrow}\n"},
 	} {
 		t.Run(tc.name, func(t *testing.T) {
